@@ -132,6 +132,23 @@ def embed(row, kind, rng):
         if renamed is None or renamed == text:
             return None
         return embed(dict(row, text=renamed), inner, rng) if inner else (renamed, [lambda l: l], 1)
+    if kind.startswith("re-") and lang == "py":
+        # the import variants the performance documentation lists for the regex rule: import re / from re import f, g / import re as regex
+        if not re.search(r"^import re$", text, re.M):
+            return None
+        fns = sorted(set(re.findall(r"\bre\.(match|search|sub|findall|split|fullmatch)\(", text)))
+        if not fns or re.search(r"\bre\.(?!(?:match|search|sub|findall|split|fullmatch)\()", text):
+            return None
+        if kind == "re-as":
+            out = re.sub(r"^import re$", "import re as regex", text, flags=re.M)
+            out = re.sub(r"\bre\.(%s)\(" % "|".join(fns), r"regex.\1(", out)
+        else:
+            names = {"re-from": fns, "re-from-flag-first": ["IGNORECASE"] + fns, "re-from-compile-first": ["compile"] + fns, "re-from-extra-last": fns + ["escape"]}.get(kind)
+            if names is None:
+                return None
+            out = re.sub(r"^import re$", "from re import " + ", ".join(names), text, flags=re.M)
+            out = re.sub(r"\bre\.(%s)\(" % "|".join(fns), r"\1(", out)
+        return out, [lambda l: l], 1
     if kind.startswith("body-in-") and lang == "py":
         # the statements of a documented function example (its body), moved into a loop / an if inside another function
         try:
@@ -297,7 +314,7 @@ def run(ctx):
             if cmd in docs.HEADER_BOUND:
                 kinds += ["before-filler"]
             else:
-                kinds += ["body-in-for", "body-in-while", "body-in-if", "after-filler", "before-filler", "in-function", "in-if", "in-for", "in-while", "repeat2", "repeat3", "in-function-class", "in-function-if", "in-function-try", "in-class-class"]
+                kinds += ["re-as", "re-from", "re-from-flag-first", "re-from-compile-first", "re-from-extra-last", "body-in-for", "body-in-while", "body-in-if", "after-filler", "before-filler", "in-function", "in-if", "in-for", "in-while", "repeat2", "repeat3", "in-function-class", "in-function-if", "in-function-try", "in-class-class"]
                 ts_scopes = ["ts-in-function", "ts-in-arrow", "ts-in-fexpr", "ts-in-if", "ts-in-method", "ts-in-objmethod", "ts-in-for", "ts-in-while"]
                 renames = ["rename-suffix", "rename-fresh"]
                 if r["lang"] in ("ts", "js"):
@@ -311,7 +328,8 @@ def run(ctx):
                     else:
                         kinds = ["as-is", "repeat2", rng.choice(["in-function-class", "in-function-if", "in-function-try"]), "rename-" + rng.choice(["suffix", "fresh"]),
                                  "rename-%s+%s" % (rng.choice(["suffix", "fresh"]), rng.choice(["in-function", "in-function-if"]))] + \
-                            rng.sample(["after-filler", "before-filler", "in-function", "in-if", "repeat3", "in-class-class"], 2) + [rng.choice(["in-for", "in-while"]), rng.choice(["body-in-for", "body-in-while", "body-in-if"])]
+                            rng.sample(["after-filler", "before-filler", "in-function", "in-if", "repeat3", "in-class-class"], 2) + [rng.choice(["in-for", "in-while"]), rng.choice(["body-in-for", "body-in-while", "body-in-if"])] + \
+                            ["re-as", "re-from", "re-from-flag-first", "re-from-compile-first", "re-from-extra-last"]  # (apply to the few regex examples only)
         for kind in kinds:
             e = embed(r, kind, rng)
             if e is None:
